@@ -239,19 +239,31 @@ where
                         .stack_size(256 << 20)
                         .spawn_scoped(scope, move || {
                             let st = RefCell::new(Stats::default());
+                            let first_fail: RefCell<Option<(Value, String)>> = RefCell::new(None);
                             let config = Config {
                                 cases: per,
                                 failure_persistence: None,
                                 rng_seed: RngSeed::Fixed(seed),
                                 max_shrink_iters: this.shrink_iters,
+                                max_shrink_time: 30_000,
                                 verbose: 0,
                                 ..Config::default()
                             };
                             let mut runner = TestRunner::new(config);
                             let strat = (this.strategy)();
+                            let trace = std::env::var("VERIF_TRACE_DIR").ok().map(|d| {
+                                std::path::PathBuf::from(d).join(format!("{}-{}.json", this.name, shard))
+                            });
+                            let prop_id = ctx.prop.clone();
                             let res = runner.run(&strat, |case| {
                                 if stop.load(Ordering::Relaxed) && !st.borrow().frozen {
                                     return Ok(());
+                                }
+                                if let Some(t) = &trace {
+                                    // crash hunting: remember the case before running it
+                                    let body = serde_json::json!({"property": prop_id, "part": this.name, "case": &case,
+                                        "message": "the process died (signal / abort / stack overflow) while executing this case"});
+                                    let _ = std::fs::write(t, body.to_string());
                                 }
                                 let mut s = st.borrow_mut();
                                 if !s.frozen {
@@ -269,6 +281,10 @@ where
                                         Ok(())
                                     }
                                     Err(m) => {
+                                        if !s.frozen {
+                                            // remember the original failure (timing-dependent failures may not shrink)
+                                            *first_fail.borrow_mut() = Some((serde_json::to_value(&case).unwrap_or(Value::Null), m.clone()));
+                                        }
                                         s.frozen = true;
                                         stop.store(true, Ordering::Relaxed);
                                         Err(TestCaseError::fail(m))
@@ -281,16 +297,24 @@ where
                                     // re-run the shrunk value to get its own message
                                     let mut scratch = Stats::default();
                                     scratch.frozen = true;
-                                    let message = match this.run_case(&value, &mut scratch) {
-                                        Err(m) => m,
-                                        Ok(_) => "shrunk case did not fail again (flaky?)".into(),
-                                    };
-                                    Some(Failure {
-                                        part: this.name.to_string(),
-                                        case: serde_json::to_value(&value)
-                                            .unwrap_or(Value::String(format!("{value:?}"))),
-                                        message,
-                                    })
+                                    match this.run_case(&value, &mut scratch) {
+                                        Err(message) => Some(Failure {
+                                            part: this.name.to_string(),
+                                            case: serde_json::to_value(&value)
+                                                .unwrap_or(Value::String(format!("{value:?}"))),
+                                            message,
+                                        }),
+                                        Ok(_) => {
+                                            // not reproducible after shrinking (e.g. thread timing): report the
+                                            // case and message of the original failure
+                                            let (case, message) = first_fail.borrow_mut().take().unwrap_or((Value::Null, "failure vanished".into()));
+                                            Some(Failure {
+                                                part: this.name.to_string(),
+                                                case,
+                                                message: format!("{message} [observed once; did not reproduce while shrinking: timing-dependent]"),
+                                            })
+                                        }
+                                    }
                                 }
                                 Err(TestError::Abort(reason)) => Some(Failure {
                                     part: this.name.to_string(),
